@@ -163,6 +163,8 @@ pub static KILLED: AtomicU64 = AtomicU64::new(0);
 pub const MAX_KILLED: usize = 24;
 /// hung executions abandoned so far in this process
 pub static ABANDONED: AtomicU64 = AtomicU64::new(0);
+/// executions that hit the wall limit but completed when they were run again (not counted as hung)
+pub static NOT_REPRODUCED: AtomicU64 = AtomicU64::new(0);
 
 // ---------------------------------------------------------------------------
 // Crash breadcrumbs. The code under test runs inside this process; if it brings the process down
